@@ -47,8 +47,8 @@ type orC18 struct {
 func (o *orC18) name() string { return "C18" }
 
 type diskView struct {
-	masterUsage   float64
-	masterKnown   bool
+	masterUsage          float64
+	masterKnown          bool
 	running, low, normal int
 }
 
